@@ -1059,8 +1059,35 @@ caption_command(vbi_decoder *vbi, struct caption *cc,
 
 			ch = switch_channel(cc, ch, chan & 3);
 
-			if (ch->mode == MODE_ROLL_UP && ch->roll == roll)
+			if (ch->mode == MODE_ROLL_UP) {
+				int row1;
+
+				if (ch->roll == roll)
+					return;
+
+				/* 47 CFR 15.119 (f)(1)(iv), (ix): The text and
+				   the cursor stay where they are, a smaller
+				   window loses its top rows. */
+				row1 = ch->row1 + ch->roll - roll;
+
+				if (row1 < 0)
+					row1 = 0;
+
+				if (row1 > ch->row1) {
+					vbi_page *spg = ch->pg + (ch->hidden ^ 1);
+
+					for (i = ch->row1 * COLUMNS;
+					     i < row1 * COLUMNS; i++)
+						spg->text[i] = cc->transp_space[0];
+
+					render(spg, -1);
+				}
+
+				ch->roll = roll;
+				ch->row1 = row1;
+
 				return;
+			}
 
 			erase_memory(cc, ch, ch->hidden);
 			erase_memory(cc, ch, ch->hidden ^ 1);
